@@ -291,8 +291,12 @@ def rule_d(ctx: Context, R: Reporter, syst: FuncInfo):
         a = call_arg(s.call, 0, "a")
         pop_ok = False
         if a is not None and isinstance(p, ast.Name):
-            ta = norm_text(a)
-            pop_ok = ta in (f"np.arange(len({p.id}))", f"len({p.id})", f"np.arange({p.id}.size)", f"{p.id}.size", f"np.arange({p.id}.shape[0])")
+            # the whole index range: n or arange(n) with n = len(p) / p.size / p.shape[0]; the library function is resolved,
+            # not matched by the name it was imported under
+            cnt = a
+            if isinstance(a, ast.Call) and (ctx.res.external_name(fi, a) or "") == "numpy.arange" and len(a.args) == 1 and not a.keywords:
+                cnt = a.args[0]
+            pop_ok = norm_text(cnt) in (f"len({p.id})", f"{p.id}.size", f"{p.id}.shape[0]")
         R.check("C06.d", "population is the whole index range of the weight vector", pop_ok, fi, s.call,
                 msg=f"{fi.short}: population `{unparse(a)}` is not arange(len({unparse(p)}))", key="population")
         size = call_arg(s.call, 1, "size")
